@@ -41,6 +41,7 @@ class SymWorld:
         self.fns = {}
         self.names = {}  # id(function object) -> name
         self.impure = set()
+        self.consts = {}  # name -> constant result
 
     def fn(self, name, impure=False, params=None):
         """A function object named `name`. `params`: explicit parameter names (for the interface layer)."""
@@ -58,6 +59,8 @@ class SymWorld:
             world.log.append((name, tuple(pos), kwt))
             if k in world.fail_at:
                 raise UserFault(name)
+            if name in world.consts:
+                return world.consts[name]
             if name in world.impure:
                 return Imp(name, k, tuple(pos), kwt)
             return App(name, tuple(pos), kwt)
